@@ -69,6 +69,55 @@ def equal(case, impl, model):
     return impl == model
 
 
+def kernel_crosscheck(ctx, limit=150):
+    """a sample of the MultiDeg cases (`mdeg u|i` with mk / arr / add / sub / neg / total, exponent dictionaries N_exp
+    and Z_exp) evaluated by vm_compute inside coqc on Model/Mono.v must give exactly what the EXTRACTED runner printed"""
+    import os
+    out = os.path.join(ctx.work, "corr")
+    try:
+        cases = open(os.path.join(out, "cases.txt")).read().splitlines()
+        model = open(os.path.join(out, "model.txt")).read().splitlines()
+    except OSError:
+        return {}, []
+
+    def mk(kind):
+        sc = "%N" if kind == "u" else "%Z"
+        e = "N_exp" if kind == "u" else "Z_exp"
+        num = lambda x: "(%d)%s" % (int(x), sc)
+        pairs = lambda sx: "[" + "; ".join("(%d, %s)" % (int(t.split("^")[0]), num(t.split("^")[1]))
+                                           for t in ([] if sx == "-" else sx.split(","))) + "]"
+        return e, num, pairs
+
+    ops = ("mk", "arr", "add", "sub", "neg", "total")
+    sel = [(c.split(), mm) for c, mm in zip(cases, model) if c.startswith("mdeg ") and c.split()[2] in ops]
+    step = max(1, len(sel) // limit)
+    ex = []
+    for t, mm in sel[::step][:limit]:
+        try:
+            e, num, pairs = mk(t[1])
+            p = lambda sx: "(md_from_iter %s %s)" % (e, pairs(sx))
+            op = t[2]
+            if op == "mk":
+                lhs, rhs = p(t[3]), pairs(mm)
+            elif op == "arr":
+                lhs = "md_from_array %s [%s]" % (e, "; ".join(num(x) for x in ([] if t[3] == "-" else t[3].split(","))))
+                rhs = pairs(mm)
+            elif op == "add":
+                lhs, rhs = "md_add %s %s %s" % (e, p(t[3]), p(t[4])), pairs(mm)
+            elif op == "sub":
+                lhs = "md_sub %s %s %s" % (e, p(t[3]), p(t[4]))
+                rhs = "None" if mm == "P" else "Some %s" % pairs(mm)
+            elif op == "neg":
+                lhs, rhs = "md_neg %s %s" % (e, p(t[3])), pairs(mm)
+            else:
+                lhs, rhs = "md_total %s %s" % (e, p(t[3])), num(mm)
+        except (ValueError, IndexError):
+            continue
+        ex.append((lhs, rhs))
+    pre = ["From Coq Require Import List ZArith NArith Arith.", "Require Import Yui.Model.Mono.", "Import ListNotations."]
+    return C.kernel_examples(ctx, pre, ex)
+
+
 def run(ctx):
     ctx.equal = equal
     obl = C.coq_obligations(ctx.pid, ["Extract/ExtractC16.vo"], more_props=["C16Rest"])
@@ -76,6 +125,12 @@ def run(ctx):
     if ctx.thorough:
         extra.update(C.coqchk(ctx.pid, more_props=["C16Rest"]))
     corr = C.correspondence(ctx, "c16", nontrivial)
+    if corr.get("ok"):
+        info, probs = kernel_crosscheck(ctx)
+        extra.update(info)
+        if probs:
+            obl["problems"] = obl.get("problems", []) + probs
+            obl["ok"] = False
     return C.finish(ctx, "proof", obl, corr, RULE, extra_cov=extra, assumptions=ASSUME)
 
 
